@@ -32,7 +32,7 @@ REQUIRED_CLASSES = ["limit:zero_bound", "limit:excludes_zero", "limit:integer_or
 def plan(tier, seed):
     if tier == "quick":
         return [{"n": 50, "timeout_s": 1800} for _ in range(16)]
-    return [{"n": 1250, "timeout_s": 14400} for _ in range(16)]
+    return [{"n": 10000, "timeout_s": 14400} for _ in range(16)]
 
 
 def fmt(v):
